@@ -226,17 +226,22 @@ def t_channels():
 	with fixtures.workdir('c17c') as d:
 		fx = clifix.build(os.path.join(d, 'fx'), params=['P0'])
 		labs = list(clifix.QUERIES)
-		for m in (2, 3, 4):
-			for sel in itertools.permutations(labs, m):
+		allq = dict(fx.q, **fx.qx)
+		allfiles = dict(clifix.QFILES, **clifix.EXTRA_QFILES)
+		allsegs = dict(clifix.QUERIES, **clifix.EXTRA_QUERIES)
+		# genomes without any k-mer (two of them: distance 0 between them, 1 to everything else) and tricky names among ordinary ones
+		extra_sels = [('empty1', 'empty2'), ('g1', 'empty1', 'empty2'), ('empty2', 'g2', 'g1', 'empty1'), ('E.faecalis_V583', 'g1', 'P.fa.lciparum.fasta_x'), ('empty1', 'E.faecalis_V583')]
+		for m in (2, 3, 4, 'x'):
+			for sel in (itertools.permutations(labs, m) if m != 'x' else extra_sels):
 				if m == 4 and sel[0] != 'g1':
 					continue
 				for channel in ('positional', 'list'):
 					for kp in ('DEF', 'P0'):
 						args = ['tree', '--no-progress'] + (['-k', '6', '-p', 'AT'] if kp == 'P0' else [])
 						if channel == 'positional':
-							args += [fx.q[l] for l in sel]
+							args += [allq[l] for l in sel]
 						else:
-							lf = clifix.write_listfile(os.path.join(d, 'l.txt'), [clifix.QFILES[l] for l in sel])
+							lf = clifix.write_listfile(os.path.join(d, 'l.txt'), [allfiles[l] for l in sel])
 							args += ['-l', lf, '--ldir', os.path.join(fx.d, 'q')]
 						code, stdout, exc, err = fixtures.run_cli(args)
 						sh.evals += 1
@@ -244,7 +249,7 @@ def t_channels():
 						if code != 0:
 							sh.violation('tree-failed', case, 'exit 0', dict(exit=code, exc=repr(exc), out=stdout[-300:]))
 							continue
-						arrs = [clifix.lib_signature(kp, clifix.QUERIES[l]) for l in sel]
+						arrs = [clifix.lib_signature(kp, allsegs[l]) for l in sel]
 						if check_tree(sh, stdout, list(sel), arrs, case):
 							sh.count('file_channel_trees')
 	sh.sample(dict(family='channels', labels=list(sel), newick=stdout.strip()[:300]))
